@@ -1,0 +1,13 @@
+//go:build verif
+
+package gen
+
+import (
+	"github.com/aquilax/hranoprovod-cli/cmd/hranoprovod-cli/v3/internal/utils"
+	"github.com/urfave/cli/v2"
+)
+
+// VerifNewGenCommand exposes the command constructor so that the verification driver can inject its own CmdUtils
+func VerifNewGenCommand(cu utils.CmdUtils, a *cli.App) *cli.Command {
+	return newGenCommand(cu, a)
+}
